@@ -209,6 +209,23 @@ claim("C07",
       "values themselves are trusted to scipy; weights logged to 1e-4.",
       "TLA+ round model checked by TLC + TLC trace validation of logged populations with oracle fields", "5/C07")
 
+claim("C11",
+      "TLC checks BoLoop.tla (the BO loop on top of the batch scheduling of Batches.tla: acquisition queue of prepare_new_batch, the refined "
+      "_allow_submit, evidence bookkeeping of update) over every client schedule for several (MaxPar, batches_per_acquisition, initial "
+      "batches) with liveness: EvidenceIsConsumedSequence, QueueExact, AcquisitionSeesAllEarlierEvidence => ScheduleIndependentEvidence for "
+      "synchronous acquisition, refuted for async_acq (negative control).  Real BayesianOptimization fits (LCBSC with zero / scalar / "
+      "per-parameter noise, UniformAcquisition; all initial-evidence forms; batch sizes, batches_per_acquisition, update intervals; priors "
+      "wider and narrower than the bounds) run through the scheduled client with max_parallel_batches 1-3; the simulator logs the parameters "
+      "it receives; acquire() is wrapped to log n, t, the points and the number of pending batches.  Direct acquire(n, t) calls of LCBSC, "
+      "MaxVar, RandMaxVar, ExpIntVar and UniformAcquisition on fitted surrogates, and gradient-vs-central-difference checks for LCBSC and "
+      "MaxVar.  TLC validates every trace against BoLoop_Trace.tla (bounded / in-order / no-leak scheduling clauses, points inside bounds "
+      "in fixed point, exact count, surrogate X/Y rows = precomputed + consumed simulator pairs in order, n_evidence, digest equality with "
+      "the sequential run).",
+      "GPy and scipy.optimize are black boxes that return some point; clause e only for LCBSC and MaxVar and only as the relation between "
+      "evaluate_gradient and a central difference of evaluate (relative 2e-3); coordinates in fixed point 1e-6; known finding F12 (RandMaxVar "
+      "with its default NUTS sampler raises TypeError under numpy 2).",
+      "TLA+ BO-loop model checked by TLC (safety+liveness) + TLC trace validation of scheduled BO fits and direct acquisition calls", "5/C11")
+
 ALL = ["C%02d" % i for i in range(1, 21)]
 
 
